@@ -127,9 +127,11 @@ class Verdict:
                 'expected_signature': self.expected_signature, 'given_signature': self.given_signature}
 
 
-def verify(method, raw_target, headers, body, *, secrets, region=None, service='s3', server_now=None, max_skew_s=900):
+def verify(method, raw_target, headers, body, *, secrets, region=None, service='s3', server_now=None, max_skew_s=900, body_complete=True):
     """`headers`: list of (name, value) as bytes or str, in wire order.  `secrets`: {access key id: secret key}.
-    `server_now`: naive UTC datetime of the endpoint's clock (None = no skew check)."""
+    `server_now`: naive UTC datetime of the endpoint's clock (None = no skew check).
+    `body_complete=False`: the connection broke while the body was arriving — `body` is only what had been received.  The
+    payload hash cannot be recomputed then; what can be said is that no more than the declared length may have arrived."""
     v = Verdict()
     if isinstance(raw_target, str):
         raw_target = raw_target.encode('latin-1')
@@ -248,15 +250,15 @@ def verify(method, raw_target, headers, body, *, secrets, region=None, service='
     else:
         hashed = declared[0]
         actual = hashlib.sha256(body).hexdigest()
-        if hashed != actual:
+        if body_complete and hashed != actual:
             v.add('payload-hash-mismatch', declared=hashed, actual=actual, body_len=len(body))
     cl = get_all('content-length')
     te = get_all('transfer-encoding')
     if len(cl) > 1:
         v.add('duplicate-content-length', values=cl)
     elif len(cl) == 1:
-        if not re.fullmatch(r'\d+', cl[0]) or int(cl[0]) != len(body):
-            v.add('content-length-mismatch', declared=cl[0], actual=len(body))
+        if not re.fullmatch(r'\d+', cl[0]) or (int(cl[0]) != len(body) if body_complete else int(cl[0]) < len(body)):
+            v.add('content-length-mismatch', declared=cl[0], actual=len(body), body_complete=body_complete)
         if te:
             v.add('content-length-and-transfer-encoding', te=te)
     else:
